@@ -1,3 +1,4 @@
 import LinfaSpec.Props.C01
 import LinfaSpec.Props.C02
 import LinfaSpec.Props.C05
+import LinfaSpec.Props.C07
